@@ -26,6 +26,19 @@ type c09FloodCase struct {
 	Pattern []string `json:"pattern,omitempty"`
 }
 
+// c09Trailing: (C08) one more handshake message behind the peer's Finished: N = message type,
+// Size 1 = in the same record as Finished, 0 = in a record of its own.
+func c09Trailing(c c09FloodCase, packed func(uint8, []byte) error, fin func() error, raw func(uint8, []byte) error) error {
+	body := make([]byte, 40)
+	if c.Size == 1 {
+		return packed(uint8(c.N), body)
+	}
+	if err := fin(); err != nil {
+		return err
+	}
+	return raw(uint8(c.N), body)
+}
+
 func c09RunFlood(c c09FloodCase) (sig, msg string) {
 	p := vfGetPKI()
 	ccfg := &Config{Time: vfTime, RootCAs: p.A.pool, ServerName: vfServerName, CipherSuites: []uint16{c.Suite}, Certificates: []Certificate{p.CliSig, p.CliEnc}}
@@ -118,6 +131,13 @@ func c09RunFlood(c c09FloodCase) (sig, msg string) {
 				return err
 			}
 			sp.SendCCS()
+			if c.Kind == "trailing" {
+				if err := c09Trailing(c, func(t uint8, b []byte) error { return sp.SendFinishedPacked(t, b) }, func() error { return sp.SendFinished(false) }, func(t uint8, b []byte) error { return sp.SendRawHandshake(t, b) }); err != nil {
+					return err
+				}
+				vfPeerRawRecord(pc, recordTypeApplicationData, []byte("END"))
+				return nil
+			}
 			if err := sp.SendFinished(false); err != nil {
 				return err
 			}
@@ -151,6 +171,14 @@ func c09RunFlood(c c09FloodCase) (sig, msg string) {
 			cp.ComputeMaster()
 			cp.EstablishKeys()
 			cp.SendCCS()
+			if c.Kind == "trailing" {
+				if err := c09Trailing(c, func(t uint8, b []byte) error { return cp.SendFinishedPacked(t, b) }, func() error { return cp.SendFinished(false) }, func(t uint8, b []byte) error { return cp.SendRawHandshake(t, b) }); err != nil {
+					return err
+				}
+				cp.ReadServerFinished()
+				vfPeerRawRecord(pc, recordTypeApplicationData, []byte("END"))
+				return nil
+			}
 			cp.SendFinished(false)
 			if err := cp.ReadServerFinished(); err != nil {
 				return err
@@ -196,6 +224,9 @@ func c09RunFlood(c c09FloodCase) (sig, msg string) {
 	if r.Watchdog {
 		return "spin-or-hang", "run did not end within 30 s"
 	}
+	if r.UErr != nil && c.Kind == "trailing" {
+		return "", "" // rejected already during the handshake
+	}
 	if r.UErr != nil {
 		return "honest-failed", fmt.Sprintf("handshake with the honest peer script failed: %v (peer: %v)", r.UErr, r.PErr)
 	}
@@ -206,6 +237,14 @@ func c09RunFlood(c c09FloodCase) (sig, msg string) {
 		return "buffer-bound:" + c.Kind, fmt.Sprintf("after %d post-handshake %s records of %d bytes the connection buffers %d bytes (bound %d)", c.N, c.Kind, c.Size, maxBuf, vfConnBufBound)
 	}
 	switch c.Kind {
+	case "trailing":
+		if len(got) > 0 {
+			return "message-after-finished-accepted", fmt.Sprintf("a handshake message (type %d, same record as Finished: %v) followed the peer's Finished; the endpoint nevertheless delivered the application data behind it (%q, read error %v)", c.N, c.Size == 1, got, readErr)
+		}
+		if readErr == nil {
+			return "message-after-finished-accepted", fmt.Sprintf("a handshake message (type %d) followed the peer's Finished and no error was reported", c.N)
+		}
+		return "", ""
 	case "warn-alerts", "empty-app":
 		counted := c.Kind == "warn-alerts" || vfStack == "tlcp"
 		if counted && c.N > 16 && readErr == nil {
